@@ -11,6 +11,7 @@ pub mod io;
 pub mod out;
 pub mod par;
 pub mod prng;
+#[cfg(feature = "zoo")]
 pub mod rzoo;
 pub mod props;
 pub mod sem;
